@@ -105,6 +105,12 @@ PROPS = {
         nontrivial="history moves at least five values in, hands at least one back, destroys at least one by deletion or "
                    "clear, and ends with the world being dropped",
     ),
+    "C20": dict(
+        domain="determinism", module="Props.C20",
+        theorems=["C20_iteration_order_is_membership", "C20_join_order_is_membership"],
+        required="faithful",
+        nontrivial="history uses a hash-map based storage (ids 3, 9, 14)",
+    ),
     "C18": dict(
         domain="derive", module="Props.C18",
         theorems=["C18_round_trip", "C18_round_trip_supported", "C18_entities_through_mapping",
@@ -899,6 +905,9 @@ def run_check(pid, tier, seed):
     dom = PROPS[pid]["domain"]
     if dom == "world":
         return check_world(pid, tier, seed)
+    if dom == "determinism":
+        from . import determinism_check
+        return determinism_check.check_determinism(pid, tier, seed)
     if dom == "derive":
         from . import derive_check
         return derive_check.check_derive(pid, tier, seed)
@@ -917,6 +926,9 @@ def run_check(pid, tier, seed):
 def replay(path):
     obj = json.load(open(path))
     pid = obj["property"]
+    if obj.get("domain") == "determinism":
+        from . import determinism_check
+        return determinism_check.replay_determinism(obj)
     if obj.get("domain") == "derive":
         from . import derive_check
         return derive_check.replay(obj)
